@@ -18,9 +18,33 @@ import (
 // mixes O(1) and tiny entries. kind 0: random diagonal, each subdiagonal entry
 // tiny with probability 1/2; kind 1: zero diagonal; kind 2: zero diagonal,
 // pairs of consecutive tiny entries next to an O(1) entry and trailing 2×2
-// blocks with complex eigenvalues; kind 3: random diagonal, few tiny entries.
+// blocks with complex eigenvalues; kind 3: random diagonal, few tiny entries;
+// kind 4: see below.
 func mixedHess(n, kind, seed int) M {
 	l := lcgFor(120+kind, n, seed)
+	if kind == 4 {
+		// every entry on and above the subdiagonal a random integer in [-3, 3] (zeros
+		// allowed: the matrix may be reducible); one subdiagonal entry in two replaced
+		// by +k*1e-170, -k*1e-250 or +k*1e-120
+		h := newM(n, n)
+		for i := 0; i < n; i++ {
+			for j := max(0, i-1); j < n; j++ {
+				h.set(i, j, float64(l.Small(3)))
+			}
+			if i > 0 {
+				k := float64(1 + l.Next()%5)
+				switch l.Next() % 6 {
+				case 0:
+					h.set(i, i-1, k*1e-170)
+				case 1:
+					h.set(i, i-1, -k*1e-250)
+				case 2:
+					h.set(i, i-1, k*1e-120)
+				}
+			}
+		}
+		return h
+	}
 	tiny := []int{-400, -565, -830, -830}
 	h := newM(n, n)
 	for i := 0; i < n; i++ {
@@ -70,7 +94,7 @@ func genHessMixed(g *vlib.G) {
 	})
 	// Dlahqr directly, full block and an interior isolated block
 	for n := 2; n <= p3(g, 7, 10, 14); n++ {
-		for kind := 0; kind < 4; kind++ {
+		for kind := 0; kind < 5; kind++ {
 			for seed := 0; seed < p3(g, 2, 6, 12); seed++ {
 				n, kind, seed := n, kind, seed
 				kase(g, fmt.Sprintf("Dlahqr mixed n=%d kind=%d seed=%d", n, kind, seed), func(t *vlib.T) {
@@ -89,7 +113,7 @@ func genHessMixed(g *vlib.G) {
 	}
 	// Dlaqr5 directly: one sweep with the eigenvalues of the trailing 2×2 blocks as shifts
 	for n := 4; n <= p3(g, 7, 9, 12); n++ {
-		for kind := 0; kind < 4; kind++ {
+		for kind := 0; kind < 5; kind++ {
 			for seed := 0; seed < p3(g, 2, 6, 12); seed++ {
 				n, kind, seed := n, kind, seed
 				kase(g, fmt.Sprintf("Dlaqr5 mixed n=%d kind=%d seed=%d", n, kind, seed), func(t *vlib.T) {
@@ -109,9 +133,9 @@ func genHessMixed(g *vlib.G) {
 	// Dhseqr with stock parameters: small orders (Dlahqr) and orders just above the
 	// Dlahqr/Dlaqr04 crossover nmin = 75 (Dlaqr04, Dlaqr23, Dlaqr5)
 	small := p3(g, []int{5, 9}, []int{3, 5, 8, 12, 20, 33}, []int{3, 4, 5, 6, 8, 12, 16, 20, 33, 49, 60, 75})
-	big := p3(g, []int{77}, []int{76, 80, 85}, vlib.Ints(76, 85))
+	big := p3(g, []int{78}, []int{76, 78, 80, 85}, vlib.Ints(76, 85))
 	for _, n := range append(small, big...) {
-		for kind := 0; kind < 4; kind++ {
+		for kind := 0; kind < 5; kind++ {
 			seeds := p3(g, 1, 2, 4)
 			if n > 75 {
 				seeds = p3(g, 1, 2, 3)
